@@ -223,11 +223,15 @@ class ClosedConstraintComponent(ConstraintComponent):
             else:
                 filter_props_string = ""
             closed_query = f"SELECT DISTINCT {select_vars_string} {{\n\t{bgp_string}\n\t{filter_props_string}\n}}"
-            try:
-                results = target_graph.query(closed_query, initBindings=init_bindings)
-            except Exception as e:
-                print(e)
-                raise
+            if len(bgp_list) < 1:
+                # no value nodes, nothing to look up (and a SELECT without variables is not valid SPARQL)
+                results = []
+            else:
+                try:
+                    results = target_graph.query(closed_query, initBindings=init_bindings)
+                except Exception as e:
+                    print(e)
+                    raise
             found_fvpo = []
             if len(results) > 0:
                 for r in results:
